@@ -313,6 +313,16 @@ def withScopeContentND {α} (sc : List Nat) (ct : Option Closure) (body : M α) 
   | .ok a rt' => .ok a { rt' with scope := rt.scope, content := rt.content }
   | x => x
 
+/-- run `body` with scope chain and content replaced; both put back by a deferred function, i.e.
+    also when `body` fails (the content closure of executeYieldBlock) -/
+def withScopeContentD {α} (sc : List Nat) (ct : Option Closure) (body : M α) : M α := fun rt =>
+  match body { rt with scope := sc, content := ct } with
+  | .ok a rt' => .ok a { rt' with scope := rt.scope, content := rt.content }
+  | .err e rt' => .err e { rt' with scope := rt.scope, content := rt.content }
+  | .crash m rt' => .crash m { rt' with scope := rt.scope, content := rt.content }
+  | .fuel => .fuel
+  | .unsupported w => .unsupported w
+
 /-- `mycontent := st.content; st.content = c; body; st.content = mycontent` -/
 def withContentND {α} (c : Option Closure) (body : M α) : M α := fun rt =>
   match body { rt with content := c } with
@@ -1544,7 +1554,7 @@ def getRanger (v : Val) : P RangerSt :=
 def invokeContent (r : Rec) (env : Env) (c : Closure) (ctxE : Option Expr) : M Unit :=
   match c with
   | .mk body myscope mycontent =>
-    withScopeContentND myscope mycontent (
+    withScopeContentD myscope mycontent (
       match ctxE with
       | some e => do
         let nv ← r.evalExpr env e
